@@ -75,6 +75,10 @@ class Hooks:
                     out.append(("val", s2.alloc("list", {"__kind__": "glist", "len": stor["len"], "elem": v}), s2))
         return out
 
+    def on_store(self, eng, st, ref, name, value):
+        """called after every attribute store `ref.name = value` on a modelled object (for invariants that must hold at every single write)"""
+        return None
+
     def glist_for(self, eng, st, node, it):
         raise Unsupported("for over generic list without a loop contract")
 
